@@ -1,0 +1,16 @@
+// Add-only test shim (build tag verif): read-only views of the RangeEncoder's
+// lookup table and of the unexported validity check of RangeCodes, for an
+// external verification harness. Nothing here is compiled in a normal build.
+
+//go:build verif
+// +build verif
+
+package prefix
+
+// VerifLUT returns a copy of the encoder's lookup table and its minimum base.
+func (re *RangeEncoder) VerifLUT() ([]uint32, uint) {
+	return append([]uint32(nil), re.lut[:]...), re.minBase
+}
+
+// VerifCheckValid exposes RangeCodes.checkValid.
+func (rcs RangeCodes) VerifCheckValid() bool { return rcs.checkValid() }
